@@ -288,7 +288,7 @@ func init() {
 			FindingKey: func(line, out, clause string) string { return clause },
 			Nontrivial: func(line, out string) bool { return strings.Contains(line, ",") || strings.HasPrefix(line, "wf ") },
 			NoShrink:   true, Timeout: 20 * time.Second, Timed: true,
-			Rule: "the real reader goroutine over the in-memory transport: streams of 1..3 packets (bodies of 1..5 DONE packages, header-only packets) cut at every byte offset and ended by reset / hang (every offset) or EOF (packet boundaries and sampled inner offsets in the quick tier, every offset in the thorough tier; an EOF inside a packet surfaces after the 1 s read timeout), with read schedules that split headers and bodies; failures during a request write: requests of 1..8 packets whose k-th transport write fails, for every k. Non-trivial = more than one packet",
+			Rule:        "the real reader goroutine over the in-memory transport: streams of 1..3 packets (bodies of 1..5 DONE packages, header-only packets) cut at every byte offset and ended by reset / hang (every offset) or EOF (packet boundaries and sampled inner offsets in the quick tier, every offset in the thorough tier; an EOF inside a packet surfaces after the 1 s read timeout), with read schedules that split headers and bodies; failures during a request write: requests of 1..8 packets whose k-th transport write fails, for every k. Non-trivial = more than one packet",
 			Assumptions: []string{"net.Conn read semantics: n > 0 ⇒ err = nil; a zero-length read returns (0, nil)", "PacketReadTimeout = 1 s in the harness"},
 		}
 		register(p)
